@@ -70,9 +70,12 @@ ApplyColl(j) ==
 
 \* outcomes of the finished tree: one row per configuration, one column per document
 Row(e, c) == [d \in 1..Len(W.docs) |-> Outcome(e, W.docs[d].av, W.cfgs[c])]
+\* for a quantifier at the root: its elements as the specification sees them (used to unroll it, C06)
+Parts(e, c) == [d \in 1..Len(W.docs) |-> ElemParts(e, W.docs[d].av, W.cfgs[c])]
 Emit ==
   /\ Len(stk) = 1
-  /\ PrintT("CASE " \o ToJson([e |-> Top.ref, x |-> [c \in 1..Len(W.cfgs) |-> Row(Top.full, c)]]))
+  /\ PrintT("CASE " \o ToJson([e |-> Top.ref, x |-> [c \in 1..Len(W.cfgs) |-> Row(Top.full, c)],
+                               p |-> IF Top.full.t = "coll" /\ W.parts THEN [c \in 1..Len(W.cfgs) |-> Parts(Top.full, c)] ELSE <<>>]))
   /\ UNCHANGED vars
 
 Next ==
